@@ -45,8 +45,11 @@ func TestMain(m *testing.M) {
 		}
 	}
 	run = vk.Start("C16", "exploration")
-	run.Rule("cells of (session type x establishment prefix x termination path x second termination, sequential or concurrent) are enumerated in full for four systems built from bng's own code: (A) dhcp.Server + PoolManager + qos.Manager + nat.Manager + ebpf.Loader over the real kernel maps of the loaded working-tree objects, with radius.Client talking to a harness RADIUS server on loopback, composed as cmd/bng/main.go does; (B) pppoe.Server over the in-memory raw socket; (C) pppoe.SessionTeardown / KeepAliveManager over the real SessionManager and IPPool; (D) subscriber.Manager with a recording allocator, and radius.CoAProcessor + AccountingManager in front of it. A resource census (pool snapshot, lease table and circuit-id index, every fast-path map, QoS and NAT maps and manager tables, accounting records received per Acct-Session-Id) is taken before establishment, after establishment, after termination and after the second termination; non-trivial = distinct cell in which the census after establishment showed at least one resource held by the subject that the census before did not")
+	run.Rule("cells of (session type x establishment prefix x termination path x second termination, sequential or concurrent) are enumerated in full for four systems built from bng's own code: (A) dhcp.Server + PoolManager + qos.Manager + nat.Manager + ebpf.Loader over the real kernel maps of the loaded working-tree objects, with radius.Client talking to a harness RADIUS server on loopback, composed as cmd/bng/main.go does; (B) pppoe.Server over the in-memory raw socket; (C) pppoe.SessionTeardown / KeepAliveManager over the real SessionManager and IPPool; (D) subscriber.Manager with a recording allocator, and radius.CoAProcessor + AccountingManager in front of it. A resource census (pool snapshot, lease table and circuit-id index, every fast-path map, QoS and NAT maps and manager tables, accounting records received per Acct-Session-Id) is taken before establishment, after establishment, after termination and after the second termination; non-trivial = distinct cell in which the census after establishment showed at least one resource held by the subject that the census before did not. Added classes: (1) establishment of system A with a fault at every resource-programming step (each kernel map Put of fast path / VLAN / circuit-id / QoS egress / QoS ingress / NAT, NAT pool exhaustion, refused Accounting-Start, refused address REQUEST, exhausted address pool; persisting or cleared before a renewal) x termination paths release / decline / expiry / lapse-rediscover, then ended twice more; (2) double termination with the second caller arriving while the first is held at a controlled point: pppoe.SessionTeardown (36 ordered path pairs x {PADT callback, eBPF callback, RADIUS Stop exchange, address release} of the subject's own first termination, and x {eBPF callback, RADIUS Stop exchange, address release} of an unrelated session's teardown that holds the teardown lock), subscriber.Manager ({TerminateSession, cleanup loop} x {TerminateSession, cleanup loop, Stop, CoA Disconnect-Request} x {between check and removal, inside the allocator's release of the IPv4 / IPv6 address, inside each terminate-event handler, inside the Accounting-Stop exchange of the accounting handler} x an operation of the establishment sequence arriving in between {none, UpdateActivity, ActivateSession, Set/ClearWalledGarden, Authenticate}); non-trivial = the held point was reached; (3) establishment cut short at every phase (DISCOVER only, repeated DISCOVER, refused REQUEST, DECLINE / RELEASE of the offer, DISCOVER after a released or lapsed session) followed by silence and the once-a-minute sweeps under virtual time, with no neighbour, renewing neighbours, long-lease neighbours, or a neighbour whose lease expires in the same sweep")
 	run.Assume("the RADIUS server is the harness's own (RFC 2865/2866 encoder written from the RFC); a Start/Stop counts as issued when the server received it, whatever it answered")
+	run.Assume("fault injection: a fault at a map Put is a real kernel hash map (same key/value sizes as the loaded object's map, a dozen entries) handed to the manager through VerifSetMaps and filled with the neighbours' entries plus foreign keys until the kernel refuses the next insert (E2BIG), as a full production map does; NAT exhaustion = every port block taken by other private addresses; accounting fault = the server receives the record and answers with a reject")
+	run.Assume("overlap cases run in real time with bounded waits (a goroutine waiting for a mutex is not durably blocked for synctest); the oracle of these cases only counts records, releases and events after every held caller has been let go, so a slow machine can make a case less sharp (second caller not yet at the lock) but cannot produce a violation")
+	run.Assume("an abandoned offer must be gone two sweeps after its hold time (the server sweeps once a minute; the statement sets no deadline, two sweeps is the bound chosen here)")
 	run.Assume("QoS policies are the repository's DefaultPolicies (cmd/bng/main.go never loads any, so without this the QoS clause would be vacuous)")
 	run.Assume("a DECLINEd address may be quarantined instead of returned to the free list (RFC 2131 4.3.3); it must not stay allocated to the client")
 	run.Assume("Stop-without-Start is recorded as an observation only: the statement demands a Stop for every Start, not the converse")
@@ -56,6 +59,14 @@ func TestMain(m *testing.M) {
 		"ipoe_held_map:subscriber_pools": 100, "ipoe_held_map:qos_egress": 100, "ipoe_held_map:subscriber_nat": 100, "ipoe_held_map:circuit_id_subscribers": 50,
 		"pppoe_server_cells": 50, "teardown_cells": 80, "teardown_concurrent_pairs": 20, "keepalive_dead_peer_cases": 1,
 		"subscriber_cells": 100, "subscriber_hook_point_reached": 6, "coa_disconnect_cases": 4,
+		// fault positions x termination paths reached, overlap points x path pairs, phases x sweeps
+		"fault_cells": 150, "fault_position_x_path_pairs_reached": 40, "fault_observed:qos-ingress-put": 8, "fault_observed:qos-egress-put": 8, "fault_observed:nat-subscriber-put": 8,
+		"fault_observed:fastpath-mac-put": 8, "fault_observed:circuit-id-hash-put": 4, "fault_observed:circuit-id-subscriber-put": 4, "fault_observed:nat-pool-exhausted": 8, "fault_observed:every-map-full": 8,
+		"fault_observed:accounting-start-refused": 8, "fault_observed:address-request-refused": 8, "fault_observed:address-pool-exhausted": 8, "fault_second_terminations": 200,
+		"overlap_teardown_cases": 100, "overlap_teardown_point_reached": 100, "overlap_teardown_point_x_pair_reached": 100, "overlap_teardown_held:other/ebpf-callback": 20, "overlap_teardown_held:other/radius-stop": 20,
+		"overlap_subscriber_cases": 100, "overlap_subscriber_point_x_pair_reached": 30, "overlap_subscriber_point:terminate-handler-1": 10, "overlap_subscriber_point:terminate-handler-radius-stop": 10, "overlap_subscriber_point:between-check-and-remove": 10,
+		"subscriber_fault_cells": 15, "phase_sweep_cells": 40, "phase_sweep_cells_with_reservation": 25, "sweeps_with_no_expired_lease": 100, "sweeps_with_an_expired_lease": 5,
+		"ipoe_path_lapse-rediscover": 40, "ipoe_path_lapse-rediscover-request": 40, "ipoe_lapse_rediscover_new_session_observed": 30,
 	} {
 		run.Floor(k, n)
 	}
